@@ -37,4 +37,83 @@ def wellOrdered {α} : List (Spec α) → Bool
   | s :: rest => (rest.all fun t => s.deps.all fun p => !(p ∈ t.sets)) && (s.deps.all fun p => !(p ∈ s.sets))
                  && wellOrdered rest
 
+/-! ## Delayed values built by lifted calls (`lazy_eval.py`)
+
+A lifted function / method called with a lazily evaluated argument (and no random one) returns
+`makeDelayedFunctionCall(helper, args, kwargs)`; operators, attribute access and calls on a `DelayedArgument` build
+further `DelayedArgument`s.  Each constructor unions the `_requiredProperties` of (some of) its operands into the
+new value's `_requiredProperties` — *which* operands is read off the source (`Shapes`, generated) — while the value
+function evaluates **every** operand (positional and keyword) with `valueInContext`. -/
+
+/-- the four constructors of derived delayed values -/
+inductive Kind where
+  | fnCall     -- makeDelayedFunctionCall(func, args, kwargs)
+  | dCall      -- DelayedArgument.__call__(self, *args, **kwargs)   (first positional operand = self)
+  | opCall     -- makeDelayedOperatorHandler(op)(self, *args)        (first positional operand = self)
+  | attrGet    -- DelayedArgument.__getattr__(self, name)            (only operand = self)
+  deriving DecidableEq, Repr
+
+/-- which operands each constructor collects required properties from (extracted from the source) -/
+structure Shapes where
+  fnPos : Bool
+  fnKw : Bool
+  dcallSelf : Bool
+  dcallPos : Bool
+  dcallKw : Bool
+  opSelf : Bool
+  opArgs : Bool
+  attrSelf : Bool
+  deriving DecidableEq, Repr
+
+/-- every operand that is evaluated is also collected -/
+def Shapes.WF (S : Shapes) : Bool :=
+  S.fnPos && S.fnKw && S.dcallSelf && S.dcallPos && S.dcallKw && S.opSelf && S.opArgs && S.attrSelf
+
+/-- does constructor `k` collect the required properties of an operand (keyword? first positional?) -/
+def collects (S : Shapes) (k : Kind) (kw first : Bool) : Bool :=
+  match k with
+  | .fnCall => if kw then S.fnKw else S.fnPos
+  | .dCall => if kw then S.dcallKw else if first then S.dcallSelf else S.dcallPos
+  | .opCall => if first then S.opSelf else S.opArgs
+  | .attrGet => S.attrSelf
+
+/-- delayed values; operand lists are `nil` / `arg kw d rest` chains (`kw` = passed by keyword) -/
+inductive DVal where
+  | const (v : Int)
+  | prop (p : Prop')                             -- a primitive DelayedArgument reading property `p`
+  | nil
+  | arg (kw : Bool) (d : DVal) (rest : DVal)
+  | call (k : Kind) (f : Nat) (args : DVal)
+  deriving Repr
+
+/-- `_requiredProperties` as the code computes it; `(k, first)` = the constructor whose operand list we are in -/
+def required (S : Shapes) (k : Kind) (first : Bool) : DVal → List Prop'
+  | .const _ => []
+  | .prop p => [p]
+  | .nil => []
+  | .arg kw d rest => (if collects S k kw first then required S k first d else []) ++ required S k (first && kw) rest
+  | .call k' _ args => required S k' true args
+
+/-- the properties read when the value is evaluated (`valueInContext` of every operand) -/
+def reads : DVal → List Prop'
+  | .const _ => []
+  | .prop p => [p]
+  | .nil => []
+  | .arg _ d rest => reads d ++ reads rest
+  | .call _ _ args => reads args
+
+def headVal (l : List (Bool × Int)) : Int := (l.head?.map (·.2)).getD 0
+
+/-- evaluation in a context; `I f operands` = the lifted Python function (operands tagged keyword / positional) -/
+def evalD (I : Nat → List (Bool × Int) → Int) (ctx : Ctx Int) : DVal → List (Bool × Int)
+  | .const v => [(false, v)]
+  | .prop p => [(false, (ctx p).getD 0)]
+  | .nil => []
+  | .arg kw d rest => (kw, headVal (evalD I ctx d)) :: evalD I ctx rest
+  | .call _ f args => [(false, I f (evalD I ctx args))]
+
+/-- the specifier `with prop <delayed value>`: dependencies = the declared required properties -/
+def delayedSpec (S : Shapes) (I : Nat → List (Bool × Int) → Int) (d : DVal) (sets : List Prop') : Spec Int :=
+  { deps := required S .fnCall true d, sets := sets, value := fun ctx _ => headVal (evalD I ctx d) }
+
 end Scenic.Delayed
